@@ -156,7 +156,8 @@ CORPUS = [
     "stream X = ",                                                        # error at the end of a text without final newline (line was 2 of 1)
     "for i in 0..30:\n    x = (\n",                                       # nesting error inside the expansion (offset was 148 of 27 bytes)
     "for a in 0..400:\n  for b in 0..250:\n    s\n",                      # exactly MAX_EXPANDED_LINES generated lines in the second pass
-    "for a in 0..400:\n  for b in 0..251:\n    s\n",                      # one more
+    "for a in 0..400:\n  for b in 0..251:\n    s\n",                      # 400 more
+    "for a in 0..11:\n  for b in 0..9091:\n    s\n",                      # exactly one more (100001)
     "é = (((((((((((((((((((((((((((x\n",
     "/* ((((((((((((((((((((((((((",                                      # unterminated block comment: its last byte is scanned as code
 ]
@@ -296,6 +297,7 @@ def correspond(run, child, examples):
         run.tie_broken("model evaluation (coqc cases)", str(e))
         return srcs
     ndis = 0
+    shown = {}
     for i, ((kind, s), (got, loc, sl)) in enumerate(zip(srcs, impl)):
         m = model[5 * i:5 * i + 5]
         nontrivial = s if (got.startswith("NEST") or "for " in s or any(ord(c) > 127 for c in s) or ":\n" in s) else None
@@ -309,8 +311,9 @@ def correspond(run, child, examples):
             diffs.append("from_position: impl %s model %s" % (sl, m[2:5]))
         if diffs:
             ndis += 1
-            if ndis <= 3:
-                run.tie_broken("correspondence Parse/Model.v vs varpulis-parser on source %r" % s[:300], "\n".join(diffs))
+            shown[kind] = shown.get(kind, 0) + 1
+            if shown[kind] <= 2:           # two per kind of source, so that different passes show up
+                run.tie_broken("correspondence Parse/Model.v vs varpulis-parser on %s source %r" % (kind, s[:300]), "\n".join(diffs)[:1800])
     run.extra["disagreements"] = ndis
     run.extra["correspondence_sources"] = len(srcs)
     return srcs
